@@ -257,6 +257,9 @@ def build(ld, prog, fns=None, stage_prefix='s', hook=None):
             ds = ds.map(fns.guard(op[1], stage))
         elif k == 'catchfilter':
             ds = ds.map(fns.filterraiser(ld, op[1], stage)).catch()
+        elif k == 'catchprefetch':
+            ds = ds.map(fns.filterraiser(ld, op[1], stage)).prefetch(
+                2, 3, 't', catch_filter_exception=True)
         elif k == 'copy':
             ds = ds.copy()
         elif k == 'freeze':
@@ -343,7 +346,8 @@ def alphabet(n, kind, small=False):
             ('sort_keyless', False), ('sort_keyless', True),
             ('shard', 2, 0), ('shard', 2, 1), ('shard', 3, 1), ('split', 3, 2),
             ('split', 1, 0), ('cache',), ('ecache',), ('catch',), ('catchfilter', 2),
-            ('catchfilter', 3), ('copy',), ('freeze',),
+            ('catchfilter', 3), ('catchprefetch', 2), ('catchprefetch', 3), ('copy',),
+            ('freeze',),
             ('mapguard', 0), ('mapguard', 1), ('mapguard', max(n - 1, 0)),
             ('concat_aba', kind), ('intersperse_aba', kind),
             ('single', 'zip', 'function'), ('single', 'zip', 'function-list'),
